@@ -785,6 +785,37 @@ def d8(ctx, prog):
     return n
 
 
+def d10(ctx, prog, eps):
+    """alias classes (E2): the value returned by __call__ must not share storage with an instance attribute that the same call path
+    also writes in place"""
+    from .. import alias
+    n = 0
+    for f in eps:
+        if f.cls is None or f.name != '__call__':
+            continue
+        n += 1
+        key = f'{f.key}::returned storage'
+        ret = alias.Summaries(prog, f.cls)(f)
+        if ret == alias.UNKNOWN or ret is None:
+            ctx.ok('C18-D10', key, 'returned storage not classified (no instance attribute involved in a recognisable way)', f.where())
+            continue
+        roots = {r for r in (ret[1] if ret != alias.FRESH and ret[0] == 'alias' else ()) if r.startswith('self.')}
+        if not roots:
+            ctx.ok('C18-D10', key, 'the returned array is allocated in the call (or derived from the argument), not kept on the object', f.where())
+            continue
+        written = set()
+        wst = None
+        for st, desc, cl in alias.Effects(prog, f.cls).writes(f):
+            if cl not in (alias.FRESH, alias.UNKNOWN, None) and cl[0] == 'alias':
+                hit = {r for r in cl[1] if r in roots}
+                if hit:
+                    written |= hit
+                    wst = wst or st
+        ctx.check(not written, 'C18-D10', key, f'the call returns `{sorted(written)[0] if written else ""}` - storage kept on the object - and writes it in place (`{norm(wst)[:60] if wst is not None else ""}`): '
+                  'the array returned for one batch is overwritten when the next batch of the same shape is processed', f'returns {sorted(roots)}, never written in place by the call', f.where(wst) if wst is not None else f.where())
+    return n
+
+
 def run(ctx, prog):
     ctx.rule('C18-D1', 'arithmetic on traces-derived values only after promotion (astype(join) / dtype=join / float partner computed with the join / FFT); helpers judged per call site')
     ctx.rule('C18-D2', 'the promotion dtype is numpy.result_type/promote_types of the traces dtype and the precision, never builtin max()')
@@ -807,6 +838,8 @@ def run(ctx, prog):
     ctx.rule('C18-D8', 'pair enumeration on symbolic traces: each combination class lists exactly the documented pairs in the documented order, row by row')
     ctx.floor('pair enumeration cases', d8(ctx, prog), 5)
     ctx.rule('C18-D7', 'operand order: the combination operation receives (point of frame_1, point of frame_2) in every mode')
+    ctx.rule('C18-D10', 'what a preprocess returns is not storage it keeps on the object and writes again in a later call (a result buffer reused between batches makes the rows returned for one batch change when the next is processed)')
+    ctx.floor('preprocess calls judged for returned storage', d10(ctx, prog, eps), 4)
     ctx.floor('combination operation call sites', d7(ctx, prog), 3)
     ctx.floor('preprocess entry points', len(eps), 20)
     ctx.floor('promotion dtype computations', n2, 5)
